@@ -10,19 +10,22 @@ RULE = (
     "X1 with the fault plan as the deviation: an instrumented top-level plan logs what each of its yields receives; corpus bodies "
     "(count, scan, grid, nested run keys, fly, cleanup wrapper, bare, two motors) in two policies - propagate (the plan does not "
     "handle the error) and swallow (handle-and-continue) - x every device operation made to raise, or to return a status that fails "
-    "immediately or 0.25 s later; thorough: two faults, async devices. Oracle: a raising operation => that very exception object is "
+    "immediately or 0.25 s later; one raising operation x one pause->resume at every later loop position (the error must still reach the plan after the rewind); thorough: two faults, async devices. Oracle: a raising operation => that very exception object is "
     "logged at the yield of the message that invoked it; a failing status => a FailedStatus whose __cause__ is the status' exception is "
     "logged at a yield k <= j <= (the wait on its group), each error once; propagate => the call raises that object; swallow => the "
     "remaining message trace equals the fault-free one; non-trivial = the fault was delivered to the plan"
 )
-ASSUMPTIONS = _x1.X1_ASSUMPTIONS + ["no pause/suspension in these schedules (rewinds shift message numbering; C13 covers responses under rewinds)"]
+ASSUMPTIONS = _x1.X1_ASSUMPTIONS + ["pause -> resume is combined only with one raising operation that precedes it (an operation re-executed by a replay is not a yield of the plan; C13 covers responses under rewinds)"]
 
 F = ("raise", "fail", "fail_late")
+PAUSE1 = [("pause",), ("@once", "pause")]  # one pause -> resume per schedule, combined with one raising operation
 _q = ["count2", "scan2", "grid22s", "nested", "fly1", "cleanup", "bare", "twomotors"]
 SPECS = {
-    "quick": [spec(k, [], bound=1, faults=F, ly=1, oe=oe) for k in _q + ["watch"] for oe in ("p", "s")],
+    "quick": [spec(k, [], bound=1, faults=F, ly=1, oe=oe) for k in _q + ["watch"] for oe in ("p", "s")]
+    + [spec(k, PAUSE1, bound=2, faults=("raise",), ly=1, oe=oe) for k in ("bare", "count2") for oe in ("p", "s")],
     "thorough": [spec(k, [], bound=1, faults=F, ly=1, oe=oe, a=a) for k in _q + ["flyonly", "relscan2", "listscan", "tworuns"] for oe in ("p", "s") for a in (0, 1)]
-    + [spec(k, [], bound=2, faults=F, ly=1, oe="s") for k in ("scan2", "bare", "count2")],
+    + [spec(k, [], bound=2, faults=F, ly=1, oe="s") for k in ("scan2", "bare", "count2")]
+    + [spec(k, PAUSE1, bound=2, faults=("raise",), ly=1, oe=oe, a=a) for k in ("bare", "count2", "scan2", "nested", "cleanup") for oe in ("p", "s") for a in (0, 1)],
 }
 
 
@@ -36,10 +39,19 @@ def oracle(scn, obs, ref, schedule):
     from bluesky.utils import FailedStatus
 
     out = []
-    if obs.outcome != "ok" or schedule.get("injections") or schedule.get("decisions"):
+    if obs.outcome != "ok" or schedule.get("decisions"):
         return out
-    out.extend(_wait_covers_its_group(obs))
     faults = schedule.get("faults", {})
+    paused = bool(schedule.get("injections"))
+    if paused:
+        # fault + pause -> resume: judged only for a raising operation that happens BEFORE the pause takes effect, in a
+        # resumable place (an operation re-executed by a replay belongs to the replay, not to a yield of the plan)
+        if any(ev[0] != "pause" for _p, ev in schedule["injections"]) or set(faults.values()) != {"raise"} or len(faults) != 1:
+            return out
+        if any(r != "yes" for _k, _i, r in engine.interruptions(obs)):
+            return out
+    else:
+        out.extend(_wait_covers_its_group(obs))
     if not faults:
         return out
     ylog = obs.extra.get("ylog", [])
@@ -58,6 +70,8 @@ def oracle(scn, obs, ref, schedule):
     idx_dev = next((i for i, t in enumerate(tl) if t[0] == "dev" and t[4] == fi), None)
     if idx_dev is None:
         return out  # the faulted operation never happened in this execution
+    if paused and any(t[0] == "state" and t[1] == "pausing" for t in tl[:idx_dev]):
+        return out
     dev, op = tl[idx_dev][1], tl[idx_dev][2]
     imsg = next((tl[i][1] for i in range(idx_dev, -1, -1) if tl[i][0] == "msg"), None)
     if imsg is None:
@@ -106,11 +120,11 @@ def oracle(scn, obs, ref, schedule):
             out.append(("failed-status-delivered-after-wait", f"status of yield {k} ({m.command}, group {grp!r}) failed; thrown at yield {j} ({hit[0][1].command}), after the wait at yield {w}"))
         err = hit[0][2]
     # what the call did
-    c0 = obs.calls[0]
+    c0 = [c for c in obs.calls if c["name"] != "probe"][-1]  # RE(), or the resume() that finished the plan
     if scn.on_error == "propagate":
         if excs_logged and err is not None and any(v is err for _k, _m, v in excs_logged):
             if c0["exc"] is not err and not _handled_by_plan(scn):
-                out.append(("unhandled-error-not-raised", f"RE() ended with {type(c0['exc']).__name__} instead of the undelivered/unhandled {type(err).__name__}"))
+                out.append(("unhandled-error-not-raised", f"{c0['name']}() ended with {type(c0['exc']).__name__} instead of the undelivered/unhandled {type(err).__name__}"))
     else:
         # handle-and-continue: the rest of the plan runs as in the fault-free execution
         a = [(mm.command, getattr(mm.obj, "name", None)) for _k, mm, _kd, _v in ylog]
